@@ -10,7 +10,7 @@ func init() {
 				Reach:     []string{"rejected", "accepted batch", "accepted single"},
 				Functions: []string{"requests.parseRequest", "requests.IsBatchMode"}},
 			{Name: "injectFile", Pkg: "requests", Files: []string{"requests/c07.go"}, Entry: "VerifInjectFile", Mode: "seq", Native: true,
-				Quick: map[string]int{"maxseg": 4}, Thorough: map[string]int{"maxseg": 5},
+				Quick: map[string]int{"maxseg": 5}, Thorough: map[string]int{"maxseg": 6},
 				Reach:     []string{"path rejected", "upload injected"},
 				Functions: []string{"requests.(*ParseRequestResponse).injectFile"}},
 			{Name: "handler-corners", Pkg: ".", Files: []string{"root/fed.go", "root/c01.go", "root/c16.go", "root/c07k3.go"}, Entry: "VerifHandlerCorners", Mode: "seq", Native: true,
